@@ -71,14 +71,18 @@ DeviationNames ==
     "Ods!MissingCountsInNumbering",  \* the counter also counts frames whose part is absent
     "Docx!RelationshipOrder",        \* images in relationship-file order, not document order
     "Epub!ManifestOrder",            \* images in OPF manifest order, not document order
-    "Xlsx!GroupedByAnchorType",      \* (harness level: oneCell anchors before twoCell anchors)
+    \* repaired steps that only the binding can show (the writers vary anchor types, extents, part numbering,
+    \* hex line length): named here for the findings / fix records, no operator reads them
+    "Xlsx!GroupedByAnchorType",      \* oneCell anchors before twoCell anchors, whatever the drawing order
+    "Xlsx!DrawingBySheetFileNumber", \* drawing of sheet k looked up as sheet<k>.xml.rels, not via workbook.xml
+    "Xlsx!DisplayExtentAsPixelSize", \* xdr:ext in EMU / 9525 reported instead of the file's pixel size
     \* what is returned
     "Odf!ExternalLinkReturnedEmpty", \* http(s) href -> an image record without bytes
     "Odg!MissingReturnedEmpty",      \* absent part -> an image record without bytes
     "Odf!FrameSizeAsPixelSize",      \* width/height = display size of the frame, not the file's pixels
     "Epub!NoPixelSize",              \* width/height never filled
     "Rtf!GoalAsTwips",               \* \picw/\pich (pixels for bitmaps) divided by 15
-    "Rtf!FirstHexRunOnly",           \* only the first line of the hex dump is decoded
+    "Rtf!FirstHexRunOnly",           \* only the first line of the hex dump is decoded (binding level)
     "Ppt!UnitViewsOmitImages" }
 
 Odf == {"odt", "odp", "ods", "odg"}
